@@ -1,7 +1,7 @@
 SPECIFICATION PSpec
 CONSTANTS Digits = {"0", "1", "2", "3", "5", "7", "8", "9"}
- MaxLenR = 3
+ MaxLenR = 2
  MaxLenP = 3
- MaxLenQ = 3
+ MaxLenQ = 2
 INVARIANTS C13_ValueSane PEmit
 CHECK_DEADLOCK FALSE
